@@ -65,6 +65,11 @@ prop('C04', 'fault_enumeration', 'exhaustive crash-point enumeration: every pref
      'every crash image (prefix x lost subset of the unflushed window; all subsets up to 10 pending writes) is checked: I1 journal-empty or needs_recovery-clear implies all replayed blocks are final on that image; I2 re-running recovery reproduces the uninterrupted result.',
      'block-granular crash model (a pwrite is durable or lost as a whole; durability at the next fsync). When a crash tears the byte-granular primary-superblock update the re-run uses e2fsck -b <backup> as documented. Internal journals only.', '4/C04')
 
+prop('C06', 'fault_enumeration', 'exhaustive deviation-bounded corruption sweep (field catalogue k<=1, every metadata byte of a tiny image x 4 treatments, header bytes of external journal / undo file / qcow2; thorough: representative pairs) through AddressSanitizer builds of every tool',
+     'Every single-field catalogue mutant of corpus images (quick: ext4csum; thorough: all 13) and every byte of every metadata block of a 128-block filesystem under {0x00, 0xff, ^0x01, ^0x80}, plus the same treatments over an external journal, an undo file and a qcow2 image, '
+     'is given to ASan-instrumented e2fsck (-fn, -fy, thorough -fp/-fyD), dumpe2fs, a 45-command read-only debugfs script, and (thorough) tune2fs -l, resize2fs -P, e2image -r/-Q, e2freefrag, e2undo: no sanitizer report, no fatal signal, exit within 20 s (re-run alone with 150 s before a hang is reported), e2fsck exit status within its documented bit set.',
+     'scope is corrupted well-formed images within one field / one byte (thorough two fields), not arbitrary byte strings; commands whose run time is proportional to i_size (cat/dump/rdump) are not in the script. Four genuine defects found this way were repaired (fix: commits, see known_findings.json).', '4/C06')
+
 def main():
     props = [json.loads(l) for l in open(os.path.join(V, 'properties.jsonl'))]
     checks, na = [], []
